@@ -69,8 +69,15 @@ func ruleDetailKeySwitches(c *Ctx) {
 		}
 		info := fi.Pkg.TypesInfo
 		ord := 0
+		elseIfs := map[*ast.IfStmt]bool{}
 		ast.Inspect(fi.Decl.Body, func(m ast.Node) bool {
 			sw, ok := m.(*ast.SwitchStmt)
+			if ifs, isIf := m.(*ast.IfStmt); isIf && !elseIfs[ifs] {
+				// an if / else-if chain is a tagless switch
+				if chain := ifChainAsSwitch(ifs, elseIfs); chain != nil {
+					sw, ok = chain, true
+				}
+			}
 			if !ok || sw.Tag != nil {
 				return true
 			}
@@ -1713,4 +1720,32 @@ func keyTransformed(info *types.Info, e ast.Expr) string {
 		return true
 	})
 	return why
+}
+
+// ifChainAsSwitch views `if c1 {A} else if c2 {B} else {C}` (no init statements, at least two conditions) as the
+// tagless switch `switch { case c1: A; case c2: B; default: C }`; the else-ifs consumed are recorded in seen.
+func ifChainAsSwitch(ifs *ast.IfStmt, seen map[*ast.IfStmt]bool) *ast.SwitchStmt {
+	sw := &ast.SwitchStmt{Switch: ifs.Pos(), Body: &ast.BlockStmt{Lbrace: ifs.Pos(), Rbrace: ifs.End()}}
+	n := 0
+	for cur := ifs; cur != nil; {
+		if cur.Init != nil {
+			return nil
+		}
+		sw.Body.List = append(sw.Body.List, &ast.CaseClause{Case: cur.Pos(), List: []ast.Expr{cur.Cond}, Body: cur.Body.List})
+		n++
+		switch e := cur.Else.(type) {
+		case *ast.IfStmt:
+			seen[e] = true
+			cur = e
+		case *ast.BlockStmt:
+			sw.Body.List = append(sw.Body.List, &ast.CaseClause{Case: e.Pos(), Body: e.List})
+			cur = nil
+		default:
+			cur = nil
+		}
+	}
+	if n < 2 {
+		return nil
+	}
+	return sw
 }
